@@ -86,7 +86,10 @@ URL_IN_TEXT_RE = re.compile(
 
 # NOTE: we allow the a tag not to be closed because some browsers do and
 # also for performance reasons.
-URL_IN_HTML = r"""<a[^>]*\shref=(?:"([^"]*)"|'([^']*)'|([^\s>]*))[^>]*>"""
+# NOTE: what precedes the href is first read attribute-wise, so that a " href="
+# inside the quoted value of another attribute is not mistaken for the href
+# (first alternative), then loosely for tags with unbalanced quotes (second one)
+URL_IN_HTML = r"""<a(?:(?:[^>"']|"[^">]*"|'[^'>]*')*?|[^>]*)\shref=(?:"([^"]*)"|'([^']*)'|([^\s>]*))[^>]*>"""
 URL_IN_HTML_BINARY = URL_IN_HTML.encode()
 
 # NOTE: re.A so that the str patterns behave like their binary counterparts
